@@ -59,6 +59,8 @@ def generic_site(p):
 def make_case(cid, rng, schema, root, n_ops, every, name_k=0):
     from ..framework import dir_name
     d = os.path.join(root, dir_name(cid, name_k))
+    if name_k % 9 == 4:
+        d = os.path.relpath(d)   # the library is named relative to the working directory throughout
     ops, metas = GH.gen_library_history(rng, schema, n_ops)
     from ..framework import is_v2
     full = [{"op": "lib_create" if is_v2(schema) else "create", "schema": schema, "dir": d}]
